@@ -507,7 +507,7 @@ class H(Harness):
                               for _ in range(rnd.choice([2, 3]))]
         elif family == 'generated':
             case['generator'] = rnd.choice(['ER', 'ER', 'BA', 'PLC'])
-            case['procs'] = (['monitor'] if rnd.random() < 0.5 else []) + [rnd.choice(['SIR', 'SIS'])]
+            case['procs'] = (['percolate'] if rnd.random() < 0.4 else []) + (['monitor'] if rnd.random() < 0.5 else []) + [rnd.choice(['SIR', 'SIS'])]
             case['maxtime'] = 1.5
         else:
             procs = []
